@@ -56,7 +56,7 @@ struct Stats {
 extern Stats g_stats;
 
 // what a hang inside the currently running operation means for the running property
-enum HangPolicy { HANG_VIOLATION = 0, HANG_SKIP = 1 };
+enum HangPolicy { HANG_VIOLATION = 0, HANG_SKIP = 1, HANG_MONITOR_ONLY = 2 /* report what the ownership monitor saw before the hang, else skip */ };
 
 struct Ctx {
   const Scn *scn = nullptr;
